@@ -241,11 +241,41 @@ def check_valid_edit(ctx, case, wdir):
         cfg['max_imfs'] = 3
     ctx.case(digest(name, repr(edits)), len(edits) > 0)
     # the edits must be readable both ways
-    for k, v in edits:
+    for k, v in dict(edits).items():     # (a later edit of the same key wins)
         path = k.split('/')
         if norm(cfg[k]) != norm(v) or norm(mget(cfg.store, path)) != norm(v):
             ctx.violation('keypath-set-get', 'cfg[%r] = %r is not read back by path and by nested indexing' % (k, v), case)
             return
+    # the same configuration delivered by unpacking and as a partial must behave alike - including failing alike when
+    # an option was set to a value the variant cannot work with
+    f = getattr(S, name)
+    x0 = signal_for(case['signals'][0])
+
+    def outcome(call):
+        try:
+            with watchdog(120):
+                return ('ok', run_func(call, x0))
+        except WatchdogTimeout:
+            raise
+        except EMDSiftCovergeError:
+            return ('convergence', None)
+        except Exception as e:
+            return ('raise', type(e).__name__)
+    try:
+        o1 = outcome(lambda v: f(v, **cfg))
+        o2 = outcome(cfg.get_func())
+    except WatchdogTimeout:
+        ctx.count('watchdog')
+        return
+    ctx.count('route_equivalence_checks')
+    if o1[0] != o2[0] or (o1[0] == 'ok' and (o1[1].shape != o2[1].shape or not np.array_equal(o1[1], o2[1]))):
+        ctx.violation('route-divergence', '%s(x, **config) %s but config.get_func()(x) %s after the edits %s'
+                      % (name, 'returned' if o1[0] == 'ok' else 'raised ' + str(o1[1]), 'returned' if o2[0] == 'ok' else 'raised ' + str(o2[1]),
+                         [(k, repr(v)[:30]) for k, v in edits]), case)
+        return
+    if o1[0] != 'ok':
+        ctx.count('edits_rejected_by_both_routes')
+        return
     backs = yaml_roundtrips(ctx, S, cfg, name, case, wdir, 'v')
     if backs is None:
         return
@@ -327,6 +357,13 @@ def run_shard(ctx):
             pool = VALID_EDITS['common'] + VALID_EDITS.get(name, [])
             picks = rng.permutation(len(pool))[:int(rng.integers(1, 4))]
             edits = [(pool[j][0], gens.pick(rng, pool[j][1])) for j in picks]
+            if rng.random() < .25:
+                # an option switched off / emptied by the user: None where the default is something else
+                edits.append((gens.pick(rng, ['sift_thresh', 'max_imfs', 'imf_opts/energy_thresh', 'extrema_opts/mag_pad_opts', 'extrema_opts/loc_pad_opts',
+                                              'envelope_opts/interp_method'] + (['nensembles', 'ensemble_noise', 'noise_mode'] if 'ensemble' in name else [])
+                                        + (['mask_amp', 'nphases', 'mask_freqs'] if name == 'mask_sift' else [])), None))
+                edits = [e for e in edits if not e[0].startswith(edits[-1][0] + '/')]
+                ctx.count('edits_with_None')
             ed = dict(edits)
             if ed.get('imf_opts/stop_method') == 'fixed' and 'imf_opts/max_iters' not in ed:
                 edits.append(('imf_opts/max_iters', 4))
